@@ -48,7 +48,7 @@ Rank5Ok ==
         model == Rank5W(h) IN
     /\ Len(h) = 5
     \* implementation-shaped stratum, observable for any words
-    /\ Ev.or_bits = OrBits(h)
+    /\ Adv(Ev.or_bits = OrBits(h), "or_bits (not named by any property)")
     /\ Ev.or_rank_bits = OrRankBits(h)
     /\ Ev.and_bits = AndBits(h)
     /\ Ev.dep_or = OrRankBits(h)
@@ -70,7 +70,7 @@ Rank5Ok ==
             /\ Ev.straight_flush = (IsFlushCards(cs) /\ IsStraightCards(cs))
             /\ Ev.wheel = IsWheelCards(cs)
             /\ Ev.straight = IsStraightW(h)
-            /\ Ev.product = MultiplyPrimes(h)
+            /\ Adv(Ev.product = MultiplyPrimes(h), "multiply_primes (mechanism, not named by any property)")
             /\ Adv(Ev.idx = Find(Ev.product), "find_in_products index")
        ELSE IF CardOrBlank(h) THEN
             /\ NoPanic5                                                                    \* C05
@@ -80,7 +80,7 @@ Rank5Ok ==
                   /\ Ev.name = Invalid /\ Ev.class = Invalid
             /\ Ev.v_validated = 0 /\ Ev.v_free = 0 /\ Ev.v_rank_validated = 0               \* C04: not a hand
             /\ ValidatedRankIs(0)
-            /\ Ev.product = MultiplyPrimes(h)
+            /\ Adv(Ev.product = MultiplyPrimes(h), "multiply_primes (mechanism, not named by any property)")
             /\ Adv(Ev.value = model, "value of a repeated-card hand")
             /\ Adv(Ev.straight = IsStraightW(h), "straight predicate on a non-hand")
        ELSE
@@ -155,7 +155,7 @@ HrFromOk ==
     /\ Ev.value = v /\ Ev.name = hr.name /\ Ev.class = hr.class                             \* C06
     /\ Ev.dname = hr.name /\ Ev.dclass = hr.class
     /\ Ev.invalid = ~IsRealValue(v) /\ Ev.consistent = TRUE
-    /\ Ev.is_default = (v = 0)
+    /\ Adv(Ev.is_default = (v = 0), "HandRank::default() is the conversion of 0")
 
 CmpOk ==
     LET a == R(Ev.a) b == R(Ev.b) c == Ev.cmp IN
@@ -352,6 +352,7 @@ NewObjs ==
 
 TraceInit == l = 1 /\ objs = <<>>
 TraceNext == /\ l <= Len(Rec)
+             /\ ~Has_("panic")              \* a recorded call that unwound is never explainable
              /\ EventOk
              /\ l' = l + 1
              /\ objs' = IF Ev.op = "reset" THEN <<>> ELSE NewObjs
